@@ -20,20 +20,8 @@ Import ListNotations.
 Open Scope list_scope.
 Open Scope N_scope.
 
-(* ---- what a key object serialises to (protoserialization.SerializeKey) ---- *)
-
-(* The serializer of every key type writes the material type of the TYPE, not
-   the label the key came in with; the fallback key returns a clone of the
-   KeyData it was built from. *)
-Definition out_material (e : entry) : N :=
-  match ekey e with
-  | PHmac _ _ _ | PAesCmac _ _ | PAesGcm _ | PAesGcmSiv _ | PAesCtrHmac _ _ _ _ _ | PAesSiv _
-  | PHkdfPrf _ _ | PHmacPrf _ _ | PAesCmacPrf _ | PChaCha _ | PXChaCha _ | PXAesGcm _ _ => km_symmetric
-  | PEcdsaPub _ _ _ _ | PRsaPkcs1Pub _ _ _ | PRsaPssPub _ _ _ _ => km_public
-  | PEcdsaPriv _ _ _ _ _ => km_private
-  | PFallback _ => emat e
-  | d => more_material d      (* Ed25519, RSA private, ECIES, HPKE, streaming AEAD, JWT, ML-DSA public, SLH-DSA *)
-  end.
+(* what a key object serialises to: Untrusted.out_material (the no-secrets
+   import needs it as well since /repo b141c20) *)
 
 (* entryToProtoKey: the prefix type is the one the key's serializer writes
    (Untrusted.shown_prefix: LEGACY comes back as CRUNCHY for the AEAD, DAEAD and
